@@ -43,7 +43,7 @@ LIBSRC := $(filter-out $(REPO)/SparseGrids/gridtest% $(REPO)/SparseGrids/tsgDpcp
              $(wildcard $(REPO)/SparseGrids/*.cpp)) \
           $(REPO)/InterfaceTPL/tsgGpuNull.cpp \
           $(REPO)/DREAM/tsgDreamState.cpp $(REPO)/DREAM/tsgDreamLikelyGaussian.cpp \
-          $(REPO)/DREAM/Optimization/tsgGradientDescent.cpp $(REPO)/DREAM/Optimization/tsgParticleSwarm.cpp \
+          $(REPO)/DREAM/Optimization/tsgGradientDescent.cpp $(REPO)/DREAM/Optimization/tsgParticleSwarm.cpp $(REPO)/DREAM/Optimization/TasmanianOptimizationWrapC.cpp \
           $(REPO)/Tasgrid/tasgridWrapper.cpp
 LIBOBJ := $(patsubst %.cpp,$(B)/lib/%.o,$(notdir $(LIBSRC)))
 vpath %.cpp $(sort $(dir $(LIBSRC)))
